@@ -18,7 +18,37 @@ from collections import defaultdict
 import operator
 from fractions import Fraction
 
+import vlib
 from vlib import cz, cnat, cbool, clist, copt, cpair
+
+GEN = os.path.join(vlib.COQ, "Gen", "C11_gen.v")
+
+
+def regen(repo=None):
+    """Tie (T): regenerate coq/Gen/C11_gen.v from the working tree's deap/gp.py.
+    Returns (ok, message, status) -- status: regenerated definition -> None (translated) | Refuse (placeholder = hand
+    model); ok is False when nothing could be translated."""
+    import c11_py2coq
+    repo = repo or vlib.REPO
+    try:
+        txt, status = c11_py2coq.translate_repo(repo)
+    except Exception as e:  # noqa  (a translator crash is a refusal of everything: fail closed)
+        r = c11_py2coq.Refuse("Module", "translator error %s: %s" % (type(e).__name__, e))
+        txt, status = c11_py2coq.translate_source("\x00")      # does not parse: all placeholders
+        status = {k: r for k in status}
+    with vlib.BuildLock():
+        os.makedirs(os.path.dirname(GEN), exist_ok=True)
+        old = open(GEN).read() if os.path.exists(GEN) else None
+        if old != txt:
+            with open(GEN, "w") as f:
+                f.write(txt)
+    done = [k for k, v in status.items() if v is None]
+    refused = ["%s (%s)" % (k, v) for k, v in status.items() if v is not None]
+    msg = "regenerated: %s" % (", ".join(done) or "nothing")
+    if refused:
+        msg += "; translator refused: " + "; ".join(refused)
+    return bool(done), msg, status
+
 
 # --------------------------------------------------------------------------- types used in typed sets
 class TA(object):
@@ -593,6 +623,35 @@ def main(run):
                         "strongly typed sets whose root type is `object` are excluded (DESIGN Appendix B 7)",
                         "primitives have arity >= 1, 0 <= min <= max"]
     run.build_props()
+    # ---- tie (T): regenerate Gen/C11_gen.v from the working tree, re-prove `regenerated = model` and the theorems
+    gen_check = "check"
+    ok, msg, status = regen()
+    refused = {k: v for k, v in status.items() if v is not None}
+    run.extra_cov["regenerated_functions"] = [k for k, v in status.items() if v is None]
+    run.extra_cov["translator_refused"] = {k: str(v) for k, v in refused.items()}
+    for k, v in refused.items():
+        run.notes.append("tie: correspondence-only (translator refused %s at line %s in %s: %s)" % (v.node, v.line, k, v.why))
+    if ok:
+        gen_ok = run.build_props(props="Props/C11_gen.v")
+        if gen_ok:
+            gen_check = "check_both"
+            run.notes.append("tie: regenerated (%s)" % ", ".join(run.extra_cov["regenerated_functions"]))
+            run.extra_cov["tie"] = ("translation (regenerated definitions proved equal to the hand model: %s) + correspondence%s"
+                                    % (", ".join(run.extra_cov["regenerated_functions"]),
+                                       "; correspondence-only for " + ", ".join(sorted(refused)) if refused else ""))
+            run.trusted.append("translator harness/c11_py2coq.py and its signature table (source text of deap/gp.py -> "
+                               "coq/Gen/C11_gen.v) with the statement vocabulary coq/Model/C11_GenRt.v; the regenerated "
+                               "definitions are proved equal to the hand model (Proofs/C11_gen_equiv.v) and evaluated against "
+                               "the implementation on every run")
+        else:
+            run.extra_cov["tie"] = "translator succeeded but the regenerated definitions are no longer (provably) the model"
+            try:        # keep the offending text for the replay
+                with open(os.path.join(run.rundir, "C11_gen.v.broken"), "w") as f:
+                    f.write(open(GEN).read())
+            except OSError:
+                pass
+    else:
+        run.extra_cov["tie"] = "correspondence-only (%s)" % msg
 
     groups = {}          # pset.k -> (PS, terms, cases)
     psdesc = {}          # pset name -> description (cases only carry the name, to keep memory small)
@@ -744,7 +803,10 @@ def main(run):
                 if out != ("ok", (j_, exp[2])):
                     viol("searchSubtree(%d) is not the span of the subtree rooted there (expected %r)" % (i, (j_, exp[2])), case)
             emit(ps, "CSearch U%d %s %s %s" % (ps.k, clit(ps.lit(nodes)), cz(i),
-                                              coutcome(out, lambda p: "(%s, %s)" % (cnat(p[0]), cnat(p[1])))), case, len(nodes) > 1)
+                                              # (a negative bound can only come from a defect: it is clamped here, the model
+                                              # answers IndexError or the true span, so the case still disagrees)
+                                              coutcome(out, lambda p: "(%s, %s)" % (cnat(max(p[0], 0)), cnat(max(p[1], 0))))),
+                 case, len(nodes) > 1)
         try:
             out = ("ok", tree.height)
         except IndexError:
@@ -1256,6 +1318,35 @@ def main(run):
     except Exception as e:  # noqa
         run.notes.append("excluded-configuration replay failed: %r" % (e,))
 
+    def search(r):
+        """only runs when an obligation or the correspondence broke and the regular cases gave no failing input: an
+        oracle-only sweep beyond the sizes the regular generators reach (a regenerated definition that is no longer the
+        model may differ from it only for tall or large trees: a threshold on depth, height or length)"""
+        before = len(r.oracle_viol)
+        big = []
+        for kind in ("full", "grow", "half"):
+            for (mn, mx) in [(7, 7), (8, 10), (10, 10), (11, 12), (12, 12), (13, 13), (12, 14), (14, 14)]:
+                for _ in range(2):
+                    t = gen_case(arith, kind, mn, mx, None, RandSrc(rng))
+                    if t is not None and 150 <= len(t) <= 3000:
+                        big.append(t)
+                if len(r.oracle_viol) > before:
+                    return
+        tall = [by_name(arith, wrap_t(2, chain_t(k))) for k in (40, 65, 95)]
+        pool = big[:8] + tall
+        for i, a in enumerate(pool):
+            b = pool[(i + 3) % len(pool)]
+            for op in (("cx",), ("cxlb", 0.1), ("cxlb", 0.9), ("uniform", ("grow", 1, 3)), ("noderepl",), ("insert",),
+                       ("shrink",)):
+                ins = [list(a), list(b)] if arity2(op) == 2 else [list(a)]
+                op_case(arith, op, [list(x) for x in ins], RandSrc(rng), heights_too=True)
+                h = max(depths(x)[0] for x in ins)
+                op_case(arith, op, [list(x) for x in ins], RandSrc(rng), limit=("height", h))
+                op_case(arith, op, [list(x) for x in ins], RandSrc(rng), limit=("len", max(len(x) for x in ins)))
+            if len(r.oracle_viol) > before:
+                return
+    run.search_fn = search
+
     import time as _time
     run.notes.append("python phase %.1fs, %d terms" % (_time.time() - run.t0, sum(len(g[1]) for g in groups.values())))
     # ---------------------------------------------------------------- correspondence, one group per pset
@@ -1264,7 +1355,43 @@ def main(run):
         pre += defs
         terms += ts
         cases += cs
-    run.correspond("all", "C11", terms, cases, preamble=pre, shard=300)
+    # the model and (when they check) the regenerated definitions are evaluated on every case
+    reqs = ["From DV Require Import Gen.C11_gen."] if gen_check != "check" else []
+    failing = run.correspond("all", "C11", terms, cases, preamble=pre, shard=300, check=gen_check, requires=reqs)
+    if gen_check == "check_both" and failing:
+        # which of the two disagrees with the implementation?
+        traces = run.traces
+        try:
+            sub = failing[:200]
+            bad_model = run.correspond("diagnosis_model", "C11", [terms[i] for i in sub], [cases[i] for i in sub],
+                                       preamble=pre, check="check")
+            bad_gen = run.correspond("diagnosis_regenerated", "C11", [terms[i] for i in sub], [cases[i] for i in sub],
+                                     preamble=pre, check="check_gen", requires=reqs)
+            run.notes.append("diagnosis: of %d disagreeing cases the hand model disagrees on %d, the regenerated definitions on %d"
+                             % (len(sub), len(bad_model), len(bad_gen)))
+        except Exception as e:  # noqa
+            run.notes.append("diagnosis step failed: %r" % (e,))
+        run.traces = traces
+        for g in ("diagnosis_model", "diagnosis_regenerated"):
+            run.corr_groups.pop(g, None)
+        run.disagreements = [d for d in run.disagreements if d.get("group") not in ("diagnosis_model", "diagnosis_regenerated")]
+    elif gen_check == "check" and ok:
+        # translated but not provably the model: do the regenerated definitions at least agree with the implementation?
+        traces = run.traces
+        try:
+            rc, out = vlib.coqc_file(GEN, cwd=vlib.COQ)
+            if rc == 0:
+                bad_gen = run.correspond("diagnosis_regenerated", "C11", terms, cases, preamble=pre, shard=300,
+                                         check="check_gen", requires=["From DV Require Import Gen.C11_gen."])
+                g = run.corr_groups.pop("diagnosis_regenerated", {})
+                run.disagreements = [d for d in run.disagreements if d.get("group") != "diagnosis_regenerated"]
+                run.notes.append("diagnosis: the regenerated definitions (not provably equal to the model) disagree with the "
+                                 "implementation on %d of %d cases (errors: %s)" % (len(bad_gen), len(terms), g.get("errors")))
+            else:
+                run.notes.append("diagnosis: the regenerated definitions do not compile: " + out[-400:])
+        except Exception as e:  # noqa
+            run.notes.append("diagnosis step failed: %r" % (e,))
+        run.traces = traces
     for d in run.disagreements:
         c = d.get("case")
         if isinstance(c, dict) and isinstance(c.get("pset"), str):
